@@ -89,9 +89,16 @@ mod params_builder {
 		pub(crate) fn insert_named<P: Serialize>(&mut self, name: &str, value: P) -> Result<(), serde_json::Error> {
 			self.maybe_initialize();
 
-			serde_json::to_writer(&mut self.bytes, name)?;
-			self.bytes.push(b':');
-			serde_json::to_writer(&mut self.bytes, &value)?;
+			let len = self.bytes.len();
+			let res = serde_json::to_writer(&mut self.bytes, name).and_then(|_| {
+				self.bytes.push(b':');
+				serde_json::to_writer(&mut self.bytes, &value)
+			});
+			if let Err(e) = res {
+				// Don't leave a partially serialized parameter behind.
+				self.bytes.truncate(len);
+				return Err(e);
+			}
 			self.bytes.push(b',');
 
 			Ok(())
@@ -101,7 +108,12 @@ mod params_builder {
 		pub(crate) fn insert<P: Serialize>(&mut self, value: P) -> Result<(), serde_json::Error> {
 			self.maybe_initialize();
 
-			serde_json::to_writer(&mut self.bytes, &value)?;
+			let len = self.bytes.len();
+			if let Err(e) = serde_json::to_writer(&mut self.bytes, &value) {
+				// Don't leave a partially serialized parameter behind.
+				self.bytes.truncate(len);
+				return Err(e);
+			}
 			self.bytes.push(b',');
 
 			Ok(())
